@@ -2,9 +2,11 @@
 
 Same engine explorations as C01 (own oracle: start count <= 1, executed set,
 queue drained) plus API-level enumeration of output specifications with
-unneeded calls (one of which raises if it is ever run).
+unneeded calls (one of which raises if it is ever run), plus runs that OVERLAP in
+time in one process (a call that itself runs an inner plan; two threads each running
+their own plan): every run executes exactly its own needed calls, once.
 """
-from .. import e1prop, engine, planh
+from .. import e1, e1prop, engine, planh
 from ..e1prop import ENGINE, PLAN, with_
 
 PROP = "C04"
@@ -53,7 +55,13 @@ def explorations(tier):
         from .c06 import api_fail_cfgs, engine_fail_cfgs
         ex.append(("engine G3 x fault patterns, W=2..3, b<=1", ENGINE, engine_fail_cfgs([3], [2, 3], ["default"], max_errors=(0, None)), {"preempt": 1}))
         ex.append(("api plans n=3 x fault patterns, W=2, b<=1", PLAN, api_fail_cfgs(3, [(2, "default")], kinds=("p", "d"), max_errors=(0, None)), {"preempt": 1}))
+        nested, conc = overlap_cfgs(tier)
+        ex.append(("overlapping runs: a call runs an inner plan (inner succeeds / fails), b<=1", OVERLAP, nested, {"preempt": 1, "random": 1, "yield": 1}))
+        ex.append(("overlapping runs: two threads each run their own plan, b<=1", OVERLAP, conc, {"preempt": 1, "random": 1, "yield": 1}))
     else:
+        nested, conc = overlap_cfgs(tier)
+        ex.append(("overlapping runs: a call runs an inner plan (inner succeeds / fails), b<=2", OVERLAP, nested, {"preempt": 2, "random": 1, "yield": 1}))
+        ex.append(("overlapping runs: two threads each run their own plan, b<=2", OVERLAP, conc, {"preempt": 2, "random": 1, "yield": 1}))
         ex.append(("engine G3/G4 W=1 sync b<=2, all random draws", ENGINE, EC([3, 4], [1], scheds), {"preempt": 2}))
         ex.append(("engine G3 W=2 sync b<=3", ENGINE, EC([3], [2], det), {"preempt": 3}))
         ex.append(("engine G3 W=2 random b<=2, all draws", ENGINE, EC([3], [2], ["random"]), {"preempt": 2}))
@@ -69,6 +77,158 @@ def explorations(tier):
         ex.append(("engine G3 x fault patterns, W=2..3, b<=2", ENGINE, engine_fail_cfgs([3], [2, 3], ["default", "random"], max_errors=(0, 1, None)), {"preempt": 2, "random": 1}))
         ex.append(("api plans n=3 x fault patterns, W=2, b<=2", PLAN, api_fail_cfgs(3, [(2, "default"), (2, "random")], kinds=("p", "d", "l"), max_errors=(0, None)), {"preempt": 2, "random": 1}))
     return ex
+
+
+class OverlapHarness(e1.Harness):
+    """Two runs overlapping in time in one process: a call of the outer plan itself runs an inner plan
+    ('nested'), or two threads each run their own plan ('concurrent').  Each run's calls are its own:
+    every needed call of EACH run executes exactly once whatever the other run does (finishes first,
+    fails and stops, is stopped by max_errors)."""
+
+    horizon = 20000
+
+    def __init__(self, cfg):
+        from ..engine import patch_engine
+
+        patch_engine()
+        self.cfg = cfg
+
+    def setup(self, s):
+        from .. import dethash
+
+        dethash.begin_execution()
+        s.ctx = {"counts": {}, "res": {}}
+        return s.ctx
+
+    def _plan(self, uberjob, ctx, tag, shape, fail=None, nested_at=None, inner=None):
+        """shape: 'chain3' a->b->c | 'fork' a->(b,c)->d | 'flat3' three independent calls + a gather."""
+        plan = uberjob.Plan()
+        counts = ctx["counts"]
+
+        def mk(name):
+            def f(*a):
+                key = f"{tag}.{name}"
+                counts[key] = counts.get(key, 0) + 1
+                e1.sched().log("start", key)
+                e1.hpoint(("call", key))
+                extra = 0
+                if nested_at == name:
+                    extra = inner()
+                if fail == name:
+                    raise ValueError(f"{key} fails")
+                return sum(a) + 1 + extra
+            f.__name__ = f.__qualname__ = f"{tag}_{name}"
+            return f
+
+        if shape == "chain3":
+            a = plan.call(mk("a")); b = plan.call(mk("b"), a); c = plan.call(mk("c"), b)  # noqa: E702
+            return plan, c, ["a", "b", "c"]
+        if shape == "fork":
+            a = plan.call(mk("a")); b = plan.call(mk("b"), a); c = plan.call(mk("c"), a); d = plan.call(mk("d"), b, c)  # noqa: E702
+            return plan, d, ["a", "b", "c", "d"]
+        xs = [plan.call(mk(n)) for n in "abc"]
+        return plan, xs, ["a", "b", "c"]
+
+    @staticmethod
+    def _expected(shape, extra_at=None, extra=0):
+        e = lambda n: extra if extra_at == n else 0  # noqa: E731
+        if shape == "chain3":
+            a = 1 + e("a"); b = a + 1 + e("b"); return b + 1 + e("c")  # noqa: E702
+        if shape == "fork":
+            a = 1 + e("a"); b = a + 1 + e("b"); c = a + 1 + e("c"); return b + c + 1 + e("d")  # noqa: E702
+        return [1 + e(n) for n in "abc"]
+
+    def body(self, ctx):
+        import uberjob
+
+        cfg = self.cfg
+        res = ctx["res"]
+
+        def do_run(tag, shape, W, sched, fail=None, max_errors=0, nested_at=None, inner=None):
+            plan, out, names = self._plan(uberjob, ctx, tag, shape, fail, nested_at, inner)
+            try:
+                res[tag] = ("ret", uberjob.run(plan, output=out, max_workers=W, scheduler=sched, max_errors=max_errors, progress=None))
+            except uberjob.CallError as e:
+                res[tag] = ("exc", type(e.__cause__).__name__)
+            return res[tag]
+
+        if cfg["mode"] == "nested":
+            n_inner = [0]
+
+            def inner():
+                n_inner[0] += 1
+                r = do_run(f"inner{n_inner[0]}", cfg["inner_shape"], cfg["Wi"], cfg["sched"], fail=cfg.get("inner_fail"), max_errors=cfg.get("inner_max_errors", 0))
+                return 100 if r[0] == "ret" else 50
+            do_run("outer", cfg["shape"], cfg["W"], cfg["sched"], nested_at=cfg["at"], inner=inner)
+        else:
+            ts = [e1.Thread(target=lambda t=t, c=c: do_run(t, c["shape"], c["W"], cfg["sched"], fail=c.get("fail"), max_errors=c.get("max_errors", 0)))
+                  for t, c in zip("AB", cfg["runs"])]
+            for t in ts:
+                t.start()
+            for t in ts:
+                t.join()
+        return dict(res)
+
+    def check(self, x):
+        msgs = []
+        s = x.sched
+        if x.status != "ok":
+            msgs.append(("C07", f"{x.status}: {s.deadlock_info}"))
+            return msgs, (x.status,)
+        if s.uncaught:
+            msgs.append(("C07", f"uncaught exception in a thread: {s.uncaught}"))
+        cfg = self.cfg
+        counts, res = x.ctx["counts"], x.ctx["res"]
+        runs = []
+        if cfg["mode"] == "nested":
+            inner_ok = cfg.get("inner_fail") is None
+            runs.append(("outer", cfg["shape"], None, self._expected(cfg["shape"], cfg["at"], 100 if inner_ok else 50)))
+            runs.append(("inner1", cfg["inner_shape"], cfg.get("inner_fail"), self._expected(cfg["inner_shape"])))
+        else:
+            for t, c in zip("AB", cfg["runs"]):
+                runs.append((t, c["shape"], c.get("fail"), self._expected(c["shape"])))
+        for tag, shape, fail, exp in runs:
+            names = ["a", "b", "c", "d"] if shape == "fork" else ["a", "b", "c"]
+            r = res.get(tag)
+            got = {n: counts.get(f"{tag}.{n}", 0) for n in names}
+            if fail is None:
+                bad = {n: k for n, k in got.items() if k != 1}
+                if bad:
+                    msgs.append(("C04", f"run {tag} ({shape}) overlapping another run: needed calls executed {bad} times (each must run exactly once); run gave {r}"))
+                if r is None or r[0] != "ret":
+                    msgs.append(("C06", f"run {tag}: no call of this run raised but it gave {r}"))
+                elif r[1] != exp:
+                    msgs.append(("C02", f"run {tag} returned {r[1]!r}, direct evaluation gives {exp!r}"))
+            else:
+                if any(k > 1 for k in got.values()):
+                    msgs.append(("C04", f"run {tag}: calls executed more than once: {got}"))
+                if got[fail] == 1 and (r is None or r[0] != "exc"):
+                    msgs.append(("C06", f"run {tag}: call {fail} raised but the run gave {r}"))
+        order = tuple(e[1] for e in s.events if e[0] == "start")
+        return msgs, (x.status, order, tuple(sorted((k, v[0]) for k, v in res.items())))
+
+
+OVERLAP = "vlib.props.c04:OverlapHarness"
+
+
+def overlap_cfgs(tier):
+    nested, conc = [], []
+    shapes = ("chain3", "fork", "flat3")
+    for sched in ("default", "random"):
+        for shape in shapes:
+            for at in (("a", "b", "c", "d") if shape == "fork" else ("a", "b", "c")):
+                for W in (1, 2):
+                    for inner_fail in (None, "a", "c"):
+                        for ish in (("chain3",) if tier == "quick" else ("chain3", "flat3")):
+                            if tier == "quick" and (W == 2 and inner_fail == "a"):
+                                continue
+                            nested.append({"mode": "nested", "shape": shape, "at": at, "W": W, "Wi": 1, "sched": sched, "inner_shape": ish,
+                                           "inner_fail": inner_fail, "inner_max_errors": 0})
+        for sa in shapes:
+            for fb in (None, "a", "b"):
+                conc.append({"mode": "concurrent", "sched": sched,
+                             "runs": [{"shape": sa, "W": 1}, {"shape": "chain3", "W": 1, "fail": fb, "max_errors": 0}]})
+    return nested, conc
 
 
 def check_retry_once():
